@@ -2873,7 +2873,9 @@ fn clean_prefixed_byte_string(content: &str) -> String {
           break;
         }
       }
-    } else if !c.is_whitespace() {
+    } else if !matches!(c, ' ' | '\t' | '\r' | '\n') {
+      // Only the grammar's whitespace is ignored (cddl.pest WHITESPACE); any other
+      // character, including other Unicode White_Space, is left for the decoder to reject.
       cleaned.push(c);
     }
   }
